@@ -75,6 +75,10 @@ Proof.
   apply Z.eqb_eq. apply (forallb_seq _ 64 tbl_roots_neg_one k). lia.
 Qed.
 
+Lemma length_ROOTS : length ROOTS = 64%nat.
+Proof. unfold ROOTS. rewrite map_length. apply seq_length. Qed.
+Global Opaque PSI_BITREV PSI_INV_BITREV N_INV ntt_sched_list intt_sched ntt_sched ROOTS psi.
+
 (* ------------------------------------------------------------------ the transforms without the option monad *)
 Definition pstep_fwd (tbl a : list Z) (e : nat * nat * nat) : list Z :=
   let '(j, jt, zi) := e in
@@ -143,13 +147,13 @@ Qed.
 (* no index of either transform is out of bounds: on 64 coefficients the transforms never panic *)
 Lemma coset_ntt_total a : length a = 64%nat -> coset_ntt_noswap_64 a = Some (ntt_pure a).
 Proof.
-  intros Ha. unfold coset_ntt_noswap_64. rewrite ntt_sched_defined.
-  apply (fold_fwd_pure PSI_BITREV 64); [exact ntt_sched_ok | exact Ha].
+  intros Ha. unfold coset_ntt_noswap_64, ntt_pure. rewrite ntt_sched_defined.
+  exact (fold_fwd_pure PSI_BITREV 64 ntt_sched_list a ntt_sched_ok Ha).
 Qed.
 Lemma coset_intt_total a : length a = 64%nat -> coset_intt_noswap_64 a = Some (intt_pure a).
 Proof.
-  intros Ha. unfold coset_intt_noswap_64.
-  rewrite (fold_inv_pure PSI_INV_BITREV 64) by (exact intt_sched_ok || exact Ha). reflexivity.
+  intros Ha. unfold coset_intt_noswap_64, intt_pure.
+  rewrite (fold_inv_pure PSI_INV_BITREV 64 intt_sched a intt_sched_ok Ha). reflexivity.
 Qed.
 Lemma length_ntt_pure a : length (ntt_pure a) = length a.
 Proof. apply length_fold_fwd. Qed.
@@ -247,12 +251,18 @@ Qed.
 Lemma eval_at_roots_linear : linear64 eval_at_roots.
 Proof.
   constructor.
-  - intros a b Ha Hb. unfold eval_at_roots, vadd. rewrite map2_same_map. apply map_ext. intros r.
-    unfold fp_add. pose proof (zeval_vadd a b r) as E. unfold vadd, eqp in E. rewrite E by congruence.
-    eqp_ring.
-  - intros c a _. unfold eval_at_roots, vscale. rewrite map_map. apply map_ext. intros r.
-    unfold fp_mul. pose proof (zeval_vscale c a r) as E. unfold vscale, eqp in E. rewrite E. eqp_ring.
-  - intros a _. unfold eval_at_roots, ROOTS. rewrite !map_length. apply seq_length.
+  - intros a b Ha Hb. unfold eval_at_roots.
+    transitivity (map (fun r => fp_add (zeval a r mod P) (zeval b r mod P)) ROOTS).
+    2:{ unfold vadd. symmetry. apply map2_same_map. }
+    apply map_ext. intros r.
+    assert (E : eqp (zeval (vadd a b) r) (zeval a r + zeval b r)) by (apply zeval_vadd; congruence).
+    unfold eqp in E. rewrite E. unfold fp_add. eqp_ring.
+  - intros c a _. unfold eval_at_roots.
+    transitivity (map (fun r => fp_mul c (zeval a r mod P)) ROOTS).
+    2:{ unfold vscale. rewrite map_map. reflexivity. }
+    apply map_ext. intros r.
+    pose proof (zeval_vscale c a r) as E. unfold eqp in E. rewrite E. unfold fp_mul. eqp_ring.
+  - intros a _. unfold eval_at_roots. rewrite map_length. apply length_ROOTS.
 Qed.
 
 Lemma pow_mod_spec r n : pow_mod r n = (r ^ Z.of_nat n) mod P.
@@ -262,11 +272,14 @@ Proof.
   - cbn [pow_mod]. rewrite IH. rewrite Nat2Z.inj_succ, Z.pow_succ_r by lia. eqp_ring.
 Qed.
 Lemma zeval_zeros n r : zeval (zeros n) r = 0.
-Proof. induction n; simpl; auto. unfold zeros in IHn. rewrite IHn. ring. Qed.
+Proof.
+  induction n as [|n IH]; [reflexivity|].
+  change (zeros (S n)) with (0 :: zeros n). cbn [zeval]. rewrite IH. ring.
+Qed.
 Lemma zeval_shift k t r : zeval (zeros k ++ t) r = r ^ Z.of_nat k * zeval t r.
 Proof.
   induction k as [|k IH].
-  - simpl. ring.
+  - change (zeros 0 ++ t) with t. change (Z.of_nat 0) with 0. rewrite Z.pow_0_r. ring.
   - change (zeros (S k) ++ t) with (0 :: (zeros k ++ t)). cbn [zeval]. rewrite IH.
     rewrite Nat2Z.inj_succ, Z.pow_succ_r by lia. ring.
 Qed.
